@@ -55,3 +55,29 @@ func VT_C07_OpenClosePullPositions() {
 	vt.CheckFrozen()
 	vt.Reach("done")
 }
+
+// GetPositions / GetPosition with any read mask are read-only: stored positions and earlier results stay what they were.
+func VT_C07_OpenCloseGetPositions() {
+	p0 := &traits.OpenClosePosition{Direction: traits.OpenClosePosition_UP, OpenPercent: vt.IntF("p0.open"), Resistance: traits.OpenClosePosition_HELD}
+	p1 := &traits.OpenClosePosition{Direction: traits.OpenClosePosition_DOWN, OpenPercent: 20, Resistance: traits.OpenClosePosition_SLOW}
+	m := NewModel(WithInitialPositions(p0, p1))
+	before, err := m.GetPositions()
+	vt.Assert(err == nil, "get-positions-succeeds")
+	beforeCopy := proto.Clone(before).(*traits.OpenClosePositions)
+	vt.Freeze(before, "positions-read-earlier")
+	masks := []*fieldmaskpb.FieldMask{{Paths: []string{"states.open_percent"}}, {Paths: []string{"states.direction"}}, {Paths: []string{"preset"}}, {Paths: []string{"states"}}, {Paths: []string{"open_percent"}}, {}}
+	mask := masks[vt.Choose("mask", len(masks))]
+	panicked, _ := vt.Try(func() {
+		if vt.Choose("single", 2) == 1 {
+			m.GetPosition(traits.OpenClosePosition_UP, resource.WithReadMask(mask))
+		} else {
+			m.GetPositions(resource.WithReadMask(mask))
+		}
+	})
+	vt.Assert(!panicked, "masked-read-never-panics")
+	after, _ := m.GetPositions()
+	vt.Assert(proto.Equal(after, beforeCopy), "masked-get-leaves-stored-positions-unchanged")
+	vt.Assert(proto.Equal(before, beforeCopy), "earlier-read-result-unchanged-by-masked-get")
+	vt.CheckFrozen()
+	vt.Reach("done")
+}
